@@ -20,14 +20,22 @@ with the name of other symbols; the text oracle works from the public NAMES the 
 (not from what the store reports back), and every store configuration (a program of API calls,
 cfg_cases.txt) is also (d) run through the Coq model Ast/PublicCfg.v (GetPublicSymbols, registered
 map names, IsPublicSymbol on probe names) and (e) judged directly: IsPublicSymbol of an element of a
-registered map symbol must equal IsPublicSymbol of the map's name."""
+registered map symbol must equal IsPublicSymbol of the map's name.
+
+HISTORIES (seq_spec.txt, harness c20_seq.go, model Ast/ValidateSeq.v): validation is a function of the query and the
+store's public set - [gen_validate_seq] answers every step on its own (theorem c20_history_independent).  Real stores
+live through sequences of validations (look-alike queries: same String() rendering, same skeleton, same shape, one
+containing the other; both orders; two stores; MakeSymbolPublic in between; random); every verdict is judged by the
+property's oracle from the identifiers of THAT step's text under the public names of THAT store at that moment.
+A violation's replay is the history, shrunk to the steps needed."""
 import json
 import os
 
 import vlib
 
 PID = "C20"
-FILES = ["theories/Properties/C20.v", "theories/Examples/C20Examples.v", "theories/Examples/C20CfgExamples.v"]
+FILES = ["theories/Properties/C20.v", "theories/Examples/C20Examples.v", "theories/Examples/C20CfgExamples.v",
+         "theories/Examples/C20SeqExamples.v"]
 DOT = b"."
 
 
@@ -188,6 +196,242 @@ def check_cfg(c, model, harness, sym_keys):
     return len(cases), disagreements
 
 
+def parse_spec(line):
+    """seq_spec.txt line -> (pubs, steps); step = ('V', store, mode, text, syms) | ('K', store, name)"""
+    f = line.split()
+    pos = 1
+    pubs = []
+    for _ in range(int(f[0])):
+        xs, pos = read_list(f, pos)
+        pubs.append(xs)
+    n = int(f[pos])
+    pos += 1
+    steps = []
+    for _ in range(n):
+        if f[pos] == "K":
+            steps.append(("K", int(f[pos + 1]), unhex(f[pos + 2])))
+            pos += 3
+        else:
+            store, mode, text = int(f[pos + 1]), f[pos + 2], unhex(f[pos + 3])
+            syms, pos = read_list(f, pos + 4)
+            steps.append(("V", store, mode, text, syms))
+    return pubs, steps
+
+
+def spec_line(pubs, steps):
+    hx = lambda b: b.hex() or "-"
+    out = [str(len(pubs))]
+    for p in pubs:
+        out += [str(len(p))] + [hx(x) for x in p]
+    out.append(str(len(steps)))
+    for st in steps:
+        if st[0] == "K":
+            out += ["K", str(st[1]), hx(st[2])]
+        else:
+            out += ["V", str(st[1]), st[2], hx(st[3]), str(len(st[4]))] + [hx(x) for x in st[4]]
+    return " ".join(out)
+
+
+def pretty_history(steps):
+    out = []
+    for st in steps:
+        if st[0] == "K":
+            out.append("store%d.MakeSymbolPublic(%s)" % (st[1], st[2].decode("utf-8", "replace")))
+        else:
+            out.append("validate[%s]@store%d  %s" % ("typed" if st[2] == "Y" else "untyped", st[1], st[3].decode("utf-8", "replace")))
+    return out
+
+
+def seq_verdicts(fi):
+    """seq_impl.txt fields -> list of verdicts (lists)"""
+    n, pos, out = int(fi[0]), 1, []
+    for _ in range(n):
+        if fi[pos] == "R":
+            out.append(fi[pos:pos + 2])
+            pos += 2
+        else:
+            out.append([fi[pos]])
+            pos += 1
+    return out
+
+
+def seq_judge(step, iverdict, intendeds, mapss):
+    """the property's oracle for ONE step of a history, from the identifiers of that step's text:
+    None | (key, nonpublic, what)"""
+    text, syms = step[3], step[4]
+    nonpublic = [x for x in syms if not is_public(x, intendeds, mapss)]
+    if iverdict == ["E"]:
+        return "C20:validator-failed", nonpublic, "validation / traversal of %r failed (panic or foreign error)" % text
+    if nonpublic and iverdict == ["A"]:
+        return "C20:accepts-nonpublic", nonpublic, "validation accepts %r although %s is not public" % (
+            text, sorted(set(x.decode() for x in nonpublic)))
+    if not nonpublic and iverdict != ["A"]:
+        return "C20:rejects-public", nonpublic, "validation rejects %r (%s) although every referenced symbol is public" % (
+            text, unhex(iverdict[1]) if len(iverdict) > 1 else "?")
+    if nonpublic and iverdict[0] == "R" and unhex(iverdict[1]) not in set(nonpublic):
+        return "C20:names-wrong-symbol", nonpublic, "validation of %r rejects naming %r, which is not a non-public symbol of the query %s" % (
+            text, unhex(iverdict[1]), sorted(set(x.decode() for x in nonpublic)))
+    return None
+
+
+def seq_rerun(c, harness, pubs, steps, tag):
+    """run one history in a fresh process; -> (verdicts, intended sets per V step) or None"""
+    d = os.path.join(c.work, "seq_" + tag)
+    os.makedirs(d, exist_ok=True)
+    for name in ("seq_spec.txt", "seq_impl.txt", "seq_oracle.txt"):
+        pth = os.path.join(d, name)
+        if os.path.exists(pth):
+            os.remove(pth)
+    rin = os.path.join(d, "in.txt")
+    with open(rin, "w") as f:
+        f.write(spec_line(pubs, steps) + "\n")
+    rc, _ = vlib.run([harness, "c20", "--out", d, "--replayseq", rin], timeout=120)
+    if rc != 0:
+        return None
+    impl = vlib.read_lines(os.path.join(d, "seq_impl.txt"))
+    orc = vlib.read_lines(os.path.join(d, "seq_oracle.txt"))
+    if len(impl) != 1 or len(orc) != 1:
+        return None
+    fo = orc[0].split()
+    pos, intended = 1, []
+    for _ in range(int(fo[0])):
+        xs, pos = read_list(fo, pos)
+        intended.append(set(xs))
+    return seq_verdicts(impl[0].split()), intended
+
+
+def seq_shrink(c, harness, pubs, steps, key, mapss, budget=24):
+    """drop steps before the last one while the last step still violates with the same key (fresh process each)"""
+    def still(cand):
+        r = seq_rerun(c, harness, pubs, cand, "shrink")
+        if r is None:
+            return False
+        verdicts, intended = r
+        nv = [s for s in cand if s[0] == "V"]
+        if len(verdicts) != len(nv):
+            return False
+        j = seq_judge(nv[-1], verdicts[-1], intended[-1], mapss)
+        return j is not None and j[0] == key
+    if not still(steps):
+        return steps, False      # does not reproduce in a fresh process: keep the history as observed
+    cur = list(steps)
+    changed = True
+    while changed and budget > 0:
+        changed = False
+        for k in range(len(cur) - 1):
+            budget -= 1
+            cand = cur[:k] + cur[k + 1:]
+            if still(cand):
+                cur, changed = cand, True
+                break
+            if budget <= 0:
+                break
+    return cur, True
+
+
+def check_seq(c, model, harness):
+    """histories of validations: every verdict judged on its own; model = gen_validate_seq"""
+    spec_path = os.path.join(c.work, "seq_spec.txt")
+    if not os.path.exists(spec_path):
+        return 0, 0, [], {}
+    specs = vlib.read_lines(spec_path)
+    if not specs:
+        return 0, 0, [], {}
+    impl = vlib.read_lines(os.path.join(c.work, "seq_impl.txt"))
+    orc = vlib.read_lines(os.path.join(c.work, "seq_oracle.txt"))
+    cases_path = os.path.join(c.work, "seq_cases.txt")
+    modl = vlib.run_model(model, "seq", cases_path, os.path.join(c.work, "seq_model.txt"))
+    assert len(specs) == len(impl) == len(orc) == len(modl), (len(specs), len(impl), len(orc), len(modl))
+    case_lines = vlib.read_lines(cases_path)
+    disagreements = []
+    steps_total = 0
+    info = dict(histories=len(specs), verdict_changes_inside_history=0, accepted_then_rejected_lookalike=0, with_make_public=0)
+    reported = set()
+    for spec, i, o, m, cl in zip(specs, impl, orc, modl, case_lines):
+        pubs, steps = parse_spec(spec)
+        vsteps = [(k, st) for k, st in enumerate(steps) if st[0] == "V"]
+        verdicts = seq_verdicts(i.split())
+        fo = o.split()
+        pos, intended = 1, []
+        for _ in range(int(fo[0])):
+            xs, pos = read_list(fo, pos)
+            intended.append(set(xs))
+        if m.split() == ["?"]:
+            disagreements.append((spec, i, m, "model could not read the history"))
+            continue
+        fm = m.split()
+        mp, mres = 1, []
+        for _ in range(int(fm[0])):
+            shaped = fm[mp] == "1"
+            if fm[mp + 1] == "A":
+                mv, mp = ["A"], mp + 2
+            else:
+                mv, mp = fm[mp + 1:mp + 3], mp + 3
+            mall, mp = read_list(fm, mp)
+            mres.append((shaped, mv, mall))
+        # the public set the real store reports at each step (what the model was given)
+        cf = cl.split()
+        cpos, reported_pubs, mapss = 1, [], set()
+        for _ in range(int(cf[0])):
+            pub, cpos = read_list(cf, cpos + 1)
+            maps, cpos = read_list(cf, cpos)
+            _, cpos = parse_tree(cf, cpos)
+            reported_pubs.append(set(pub))
+            mapss = set(maps)
+        assert len(vsteps) == len(verdicts) == len(intended) == len(mres) == len(reported_pubs)
+        steps_total += len(vsteps)
+        if any(st[0] == "K" for st in steps):
+            info["with_make_public"] += 1
+        kinds = set(v[0] for v in verdicts)
+        if len(kinds) > 1:
+            info["verdict_changes_inside_history"] += 1
+        for n, (k, st) in enumerate(vsteps):
+            hist = steps[:k + 1]
+            rep = dict(seqcase=spec_line(pubs, hist), history=pretty_history(hist),
+                       stores=[sorted(x.decode() for x in p) for p in pubs], step=n,
+                       query=st[3].decode("utf-8", "replace"), impl=" ".join(verdicts[n]), model=" ".join(mres[n][1]))
+            if intended[n] != reported_pubs[n]:
+                c.violation("C20:public-set-differs", "after %s the store lacks the public names %s and has %s in excess" % (
+                    pretty_history(hist[:-1]), sorted(x.decode() for x in intended[n] - reported_pubs[n]),
+                    sorted(x.decode() for x in reported_pubs[n] - intended[n])), rep)
+                break
+            j = seq_judge(st, verdicts[n], intended[n], mapss)
+            if j is not None:
+                key, nonpublic, what = j
+                if key in reported:
+                    break
+                reported.add(key)
+                alone = seq_rerun(c, harness, pubs, [s for s in hist[:-1] if s[0] == "K" and s[1] == st[1]] + [st], "alone")
+                alone_raw = alone[0][-1] if alone and alone[0] else ["?"]
+                alone_v = "accepted" if alone_raw == ["A"] else ("rejected naming %r" % unhex(alone_raw[1]).decode("utf-8", "replace")
+                                                                if len(alone_raw) > 1 else " ".join(alone_raw))
+                dropped = [x for x in nonpublic if x not in set(mres[n][2])]
+                if key == "C20:accepts-nonpublic" and nonpublic and set(dropped) == set(nonpublic) and st[2] == "Y":
+                    key = "C20:symbol-dropped-by-typer"
+                    what += ": the typed query no longer contains the symbol"
+                small, reproduced = seq_shrink(c, harness, pubs, hist, j[0], mapss) if len(hist) > 1 else (hist, True)
+                rep = dict(rep, seqcase=spec_line(pubs, small), history=pretty_history(small), observed_history=pretty_history(hist),
+                           verdict_of_the_query_validated_alone=alone_v, reproduced_in_fresh_process=reproduced)
+                if len(small) > 1 and alone_raw != verdicts[n]:
+                    what += (" - AFTER the history %s on store%d with public names %s; validated alone on a fresh store the same query "
+                             "is %s: the verdict depends on what was validated before (validation must be a function of the query "
+                             "and the store's public symbols)" % (pretty_history(small[:-1]), st[1],
+                                                                 sorted(x.decode() for x in intended[n]), alone_v))
+                else:
+                    what += " (history: %s)" % pretty_history(small)
+                c.violation(key, what, rep)
+                break
+            if not mres[n][0]:
+                disagreements.append((spec, i, m, "a tree of the history does not have the shape the generated table describes"))
+                break
+            if verdicts[n] != mres[n][1]:
+                disagreements.append((spec, i, m, "verdict of step %d of a history differs from the model's (the step validated on its own)" % n))
+                break
+            if n > 0 and verdicts[n] == ["R"] + verdicts[n][1:] and verdicts[n - 1] == ["A"] and vsteps[n - 1][1][1] == st[1]:
+                info["accepted_then_rejected_lookalike"] += 1
+    return len(specs), steps_total, disagreements, info
+
+
 def main(argv):
     c = vlib.Check(PID, argv)
     c.cov["trusted_base"] = [
@@ -198,6 +442,8 @@ def main(argv):
         "generic model Ast/Visitor.v (what a table-following visitor sees; IsPublicSymbol; first-error latch)",
         "model Ast/PublicCfg.v of the store configuration API (addSymbol / AddMapSymbol / MakeSymbolPublic / GrantSymbols): symbol NAMES "
         "decide, bucket keys are recorded and never read; compared with real stores on every configuration of the run",
+        "model Ast/ValidateSeq.v: a history of validations is answered step by step by [validate] (nothing carried from call to call); real "
+        "stores live through the same histories (c20_seq.go) and every verdict is judged on its own",
         "the explicit exclusion list gen_aliases (AllOf/AnyOfSetExprNode.name, AnyOfSetExprNode.seekablePredicate): part of `shaped`, "
         "evaluated by the extracted model on every real tree of the run",
         "extraction (ExtrOcamlBasic only) + extraction/c20_driver.ml + drv_common.ml",
@@ -235,14 +481,15 @@ def main(argv):
     cases_path = os.path.join(c.work, "cases.txt")
     if c.replay:
         rp = json.load(open(c.replay))
-        if "case" not in rp and "cfgcase" not in rp:
+        if "case" not in rp and "cfgcase" not in rp and "seqcase" not in rp:
             vlib.log("REPLAY: %s names a proof obligation / correspondence, not an input: %s" % (c.replay, rp.get("what", "")))
             vlib.log("  table complete=%s validator=%s gaps=%s" % (table["complete"], table["validator"], table["gaps"]))
             return c.finish()
         rin = os.path.join(c.work, "replay_in.txt")
         with open(rin, "w") as f:
-            f.write(rp.get("cfgcase", rp.get("case")) + "\n")
-        args = [harness, "c20", "--out", c.work, "--replaycfg" if "cfgcase" in rp else "--replaycase", rin]
+            f.write(rp.get("seqcase", rp.get("cfgcase", rp.get("case"))) + "\n")
+        args = [harness, "c20", "--out", c.work,
+                "--replayseq" if "seqcase" in rp else "--replaycfg" if "cfgcase" in rp else "--replaycase", rin]
     else:
         args = [harness, "c20", "--seed", str(c.seed), "--tier", c.tier, "--out", c.work]
     rc, out = vlib.run(args, timeout=1800)
@@ -359,15 +606,18 @@ def main(argv):
                     s[0] += 1
 
     n_cfg, cfg_disagreements = check_cfg(c, model, harness, sym_keys)
+    n_seq, n_seq_steps, seq_disagreements, seq_info = check_seq(c, model, harness)
+    disagreements += [(spec[:3000], i, m, why) for spec, i, m, why in seq_disagreements]
     if c.replay:
-        for name in ("cfg_cases.txt", "cfg_impl.txt", "cfg_model.txt"):
+        for name in ("cfg_cases.txt", "cfg_impl.txt", "cfg_model.txt", "seq_spec.txt", "seq_impl.txt", "seq_model.txt"):
             pth = os.path.join(c.work, name)
             if os.path.exists(pth) and vlib.read_lines(pth):
                 vlib.log("REPLAY %s: %s" % (name, vlib.read_lines(pth)[0][:600]))
         for case, i, m in zip(cases, impl, modl):
             vlib.log("REPLAY case=%s\n  impl =%s\n  model=%s" % (case[:400], i, m))
-    c.cov["evaluations"] = len(cases) + n_cfg
+    c.cov["evaluations"] = len(cases) + n_cfg + n_seq_steps
     c.cov["store_configurations"] = n_cfg
+    c.cov["validation_histories"] = dict(seq_info, steps=n_seq_steps)
     c.cov["distinct_nontrivial"] = len(distinct)
     c.cov["disagreements_checked"] = len(disagreements) + len(cfg_disagreements)
     c.cov["rule"] = ("every lhs shape (each scalar type, map element, linked composite, anyOf/allOf/count over each set kind) x every "
@@ -378,7 +628,11 @@ def main(argv):
                      "non-public referenced symbols). Store symbols include maps / scalars / fks whose bucket key differs from their name and equals "
                      "other symbols' names; for those also: symbol alone public, symbol vs the symbol named like its key public/non-public "
                      "independently. Plus store configurations (programs of API calls incl. MakeSymbolPublic order, GrantSymbols; hand-written "
-                     "+ random over a 5-name pool) observed through GetPublicSymbols / registered map names / IsPublicSymbol on probe names")
+                     "+ random over a 5-name pool) observed through GetPublicSymbols / registered map names / IsPublicSymbol on probe names. "
+                     "Plus HISTORIES: stores that live through sequences of validations - ordered pairs / triples of look-alike queries (same "
+                     "String() rendering of the typed query, same text without quotes, same skeleton, same shape, a query and one containing it) "
+                     "under public sets on which the two verdicts differ, both orders, one and two stores, typed and untyped, and random "
+                     "sequences with repeats and MakeSymbolPublic in between; every verdict judged on its own")
     mid = len(cases) // 2
     c.cov["samples"] = [dict(case=cases[k][:600], impl=impl[k], model=modl[k][:300], oracle=oracle[k][:300])
                         for k in sorted(set((0, min(1, len(cases) - 1), mid, len(cases) - 1))) if cases]
